@@ -39,6 +39,7 @@ def run(ctx):
     fitsmodel.check_pair(ctx, 'PERM-8', fw, fr, {'model_names': 'model_names', 'flux': 'flux'}, where)
     c07.check_drivers(ctx)
     c07.check_sort_to_match(ctx)
+    c07.check_shared_buffers(ctx)
     # hop 2: Models.names
     for version in (1, 2):
         fi, I, h, m = readers.run_reader(repo, version)
